@@ -92,7 +92,8 @@ theorem C05_numbers_fit_iff (l : LSt) (evs : List LEv) :
 
 /-- **C05, safety, every fault history.**  Persistence on and all reset options off on both sides, mirrored
     CompIDs, the same BeginString — every other setting free (roles, chunk size, heartbeat settings, latency check,
-    RefreshOnLogon, DefaultApplVerID) — every history of connects, sends on both sides (non-empty payload ids),
+    RefreshOnLogon, DefaultApplVerID, the five validator settings) with no data dictionary configured (with one, whether the
+    peer's traffic passes depends on what the dictionary says) — every history of connects, sends on both sides (non-empty payload ids),
     deliveries of the oldest message in flight, cuts losing everything in flight, restarts of either engine on its
     store, timer events and flushes, as long as the sequence numbers fit a Go `int`: what B's application received is
     a prefix of what A's application submitted, and what A's received a prefix of what B's submitted. -/
@@ -101,6 +102,7 @@ theorem C05_safety (cfgA cfgB : Cfg) (evs : List LEv)
     (hpa : cfgA.persist = true) (hpb : cfgB.persist = true)
     (ha1 : cfgA.resetOnLogon = false) (ha2 : cfgA.resetOnLogout = false) (ha3 : cfgA.resetOnDisconnect = false)
     (hb1 : cfgB.resetOnLogon = false) (hb2 : cfgB.resetOnLogout = false) (hb3 : cfgB.resetOnDisconnect = false)
+    (hva : cfgA.validator.app = none) (hvb : cfgB.validator.app = none)
     (hpay : ∀ side p, LEv.send side p ∈ evs → p ≠ "")
     (hfit : C05_numbers_fit (linkInit cfgA cfgB) evs) :
     let l := runLink (linkInit cfgA cfgB) evs
@@ -118,7 +120,7 @@ theorem C05_safety (cfgA cfgB : Cfg) (evs : List LEv)
     exact safe_of_LInvD this
   · have hne1 : cfgA.sender ≠ "" := fun h => hne (Or.inl h)
     have hne2 : cfgA.target ≠ "" := fun h => hne (Or.inr h)
-    have hcf : CfgsOK cfgA cfgB := ⟨hpa, hpb, ⟨ha1, ha2, ha3⟩, ⟨hb1, hb2, hb3⟩, hst, hts, hbs, hne1, hne2⟩
+    have hcf : CfgsOK cfgA cfgB := ⟨hpa, hpb, ⟨ha1, ha2, ha3⟩, ⟨hb1, hb2, hb3⟩, hst, hts, hbs, hne1, hne2, hva, hvb⟩
     have hev : ∀ e ∈ evs, EvOKL e := by
       intro e he
       cases e with
@@ -135,6 +137,7 @@ theorem C05_safety_clauses (cfgA cfgB : Cfg) (evs : List LEv)
     (hpa : cfgA.persist = true) (hpb : cfgB.persist = true)
     (ha1 : cfgA.resetOnLogon = false) (ha2 : cfgA.resetOnLogout = false) (ha3 : cfgA.resetOnDisconnect = false)
     (hb1 : cfgB.resetOnLogon = false) (hb2 : cfgB.resetOnLogout = false) (hb3 : cfgB.resetOnDisconnect = false)
+    (hva : cfgA.validator.app = none) (hvb : cfgB.validator.app = none)
     (hpay : ∀ side p, LEv.send side p ∈ evs → p ≠ "")
     (hfit : C05_numbers_fit (linkInit cfgA cfgB) evs) :
     let l := runLink (linkInit cfgA cfgB) evs
@@ -142,7 +145,7 @@ theorem C05_safety_clauses (cfgA cfgB : Cfg) (evs : List LEv)
     (l.sentA.Nodup → l.dlvB.Nodup ∧ l.dlvB = l.sentA.take l.dlvB.length) ∧
     (l.sentB.Nodup → l.dlvA.Nodup ∧ l.dlvA = l.sentB.take l.dlvA.length) := by
   intro l
-  have h := C05_safety cfgA cfgB evs hst hts hbs hpa hpb ha1 ha2 ha3 hb1 hb2 hb3 hpay hfit
+  have h := C05_safety cfgA cfgB evs hst hts hbs hpa hpb ha1 ha2 ha3 hb1 hb2 hb3 hva hvb hpay hfit
   simp only [safe, Bool.and_eq_true] at h
   obtain ⟨t1, e1⟩ := (isPrefix_iff _ _).1 h.1
   obtain ⟨t2, e2⟩ := (isPrefix_iff _ _).1 h.2
@@ -189,6 +192,7 @@ def C05_safety_full : Prop :=
     cfgA.persist = true → cfgB.persist = true →
     cfgA.resetOnLogon = false → cfgA.resetOnLogout = false → cfgA.resetOnDisconnect = false →
     cfgB.resetOnLogon = false → cfgB.resetOnLogout = false → cfgB.resetOnDisconnect = false →
+    cfgA.validator.app = none → cfgB.validator.app = none →
     let l := runLink (linkInit cfgA cfgB) evs
     safe l.sentA l.sentB l.dlvA l.dlvB = true
 
@@ -206,13 +210,15 @@ def cexHistory : List LEv :=
 #guard (let l := runLink (linkInit cexA cexB) cexHistory; safe l.sentA l.sentB l.dlvA l.dlvB) == false
 #guard cexA.initiator && !cexB.initiator && cexA.sender == cexB.target && cexA.target == cexB.sender && cexA.bs == cexB.bs
   && cexA.persist && cexB.persist && !cexA.resetOnLogon && !cexA.resetOnLogout && !cexA.resetOnDisconnect
-  && !cexB.resetOnLogon && !cexB.resetOnLogout && !cexB.resetOnDisconnect
+  && !cexB.resetOnLogon && !cexB.resetOnLogout && !cexB.resetOnDisconnect && cexA.validator.app.isNone && cexB.validator.app.isNone
 
 /-- the mechanism behind the counterexample, for every state: an application message whose payload field is empty,
-    arriving exactly at the expected number, is refused by the validator (Reject, reason 4, RefTagID 9000), its number
+    arriving exactly at the expected number, is refused by the default validator with ValidateFieldsHaveValues on (its
+    default) (Reject, reason 4, RefTagID 9000), its number
     is consumed and it is NOT handed to the application -/
 theorem C05_empty_payload_is_consumed (s : Sess) (pcfg : Cfg) (hst : s.cfg.sender = pcfg.target) (hts : s.cfg.target = pcfg.sender)
-    (hbs : s.cfg.bs = pcfg.bs) (hs : pcfg.sender ≠ "") (ht : pcfg.target ≠ "") (hn : inInt64 s.store.target) :
+    (hbs : s.cfg.bs = pcfg.bs) (hs : pcfg.sender ≠ "") (ht : pcfg.target ≠ "") (hn : inInt64 s.store.target)
+    (happ : s.cfg.validator.app = none) (hhv : s.cfg.validator.settings.checkHaveValues = true) :
     inSessionFixMsgIn s (toIn pcfg (appMsg s.store.target "")) =
       (incrTarget (doReject s (toIn pcfg (appMsg s.store.target "")) 4 (some 9000) false), .inSession) := by
   have hk : kindOf (toIn pcfg (appMsg s.store.target "")) = "D" := toIn_kind _ _
@@ -224,7 +230,7 @@ theorem C05_empty_payload_is_consumed (s : Sess) (pcfg : Cfg) (hst : s.cfg.sende
       ⟨fun _ => ⟨_, hseq, Int.le_refl _⟩, fun _ => ⟨_, hseq, Int.le_refl _⟩⟩]
     simp only [if_true]
     unfold verifyAppImpl
-    rw [validate_empty_payload pcfg _ hs ht]
+    rw [validate_empty_payload s.cfg pcfg _ hs ht happ hhv]
   unfold inSessionFixMsgIn
   simp only [hk, hv]
   simp [processReject, noValue]
